@@ -438,6 +438,12 @@ func (p *Prog) callTerm(c *ast.CallExpr) *Term {
 			if types.Identical(from.Underlying(), to.Underlying()) || p.valuePreserving(from, to) {
 				return arg
 			}
+			// uint32 -> 32-bit int is value preserving for a field that provably never
+			// holds a value >= 2^31 (every store is a small constant or uint32(e) of a
+			// non-negative 32-bit signed e): relevant on 32-bit configurations only.
+			if arg.Op == "fld" && p.fieldFitsInt(arg.Obj, from, to) {
+				return arg
+			}
 		}
 		return &Term{Op: "conv", Str: types.TypeString(to, func(*types.Package) string { return "" }), Args: []*Term{arg}, Pos: c.Pos()}
 	}
@@ -543,4 +549,158 @@ func Lin(t *Term) *Linear {
 	l.Coef[t.Key()] = 1
 	l.Atoms[t.Key()] = t
 	return l
+}
+
+// fieldFitsInt: converting the (unsigned) field to the signed type `to` of the
+// same width keeps its value, because every store to the field in the package
+// is a constant below 2^(bits-1) or a conversion of a signed expression of at
+// most that width which is known to be non-negative at the store.
+func (p *Prog) fieldFitsInt(o types.Object, from, to types.Type) bool {
+	f, ok := o.(*types.Var)
+	if !ok || !f.IsField() {
+		return false
+	}
+	fb, fs, ok1 := p.sizeofBits(from)
+	tb, ts, ok2 := p.sizeofBits(to)
+	if !ok1 || !ok2 || fs || !ts || fb != tb {
+		return false
+	}
+	memo, _ := p.memo["fitsint"].(map[*types.Var]int)
+	if memo == nil {
+		memo = map[*types.Var]int{}
+		p.memo["fitsint"] = memo
+	}
+	switch memo[f] {
+	case 1:
+		return true
+	case 2, 3: // false, or being computed
+		return false
+	}
+	memo[f] = 3
+	res := true
+	n := 0
+	for _, st := range p.FieldStores(f) {
+		n++
+		if st.Rhs == nil {
+			res = false
+			break
+		}
+		if v, isC := p.constVal(st.Rhs); isC {
+			if v < 0 || v >= int64(1)<<uint(tb-1) {
+				res = false
+				break
+			}
+			continue
+		}
+		if p.fitsAsDifference(st, from, to) {
+			continue
+		}
+		call, isCall := ast.Unparen(st.Rhs).(*ast.CallExpr)
+		if !isCall || !p.IsConversion(call) || len(call.Args) != 1 {
+			res = false
+			break
+		}
+		et := p.Info.TypeOf(call.Args[0])
+		eb, es, okE := p.sizeofBits(et)
+		if !okE || eb > tb || (!es && eb == tb) {
+			res = false
+			break
+		}
+		if !es { // a narrower unsigned value
+			continue
+		}
+		// signed and not wider: needs e >= 0 at the store
+		e := p.Term(call.Args[0])
+		pt, okP := p.CFG(st.Fn).PointOf(st.Node)
+		nonneg := false
+		if okP {
+			for _, ct := range p.CFG(st.Fn).DominatingConds(pt) {
+				for _, a := range Conjuncts(ct) {
+					if (a.Op == "<" || a.Op == "<=") && len(a.Args) == 2 && a.Args[0].IsConst() && a.Args[0].Int >= 0 && a.Args[1].Key() == e.Key() {
+						nonneg = true
+					}
+				}
+			}
+		}
+		if !nonneg {
+			res = false
+			break
+		}
+	}
+	if n == 0 {
+		res = false
+	}
+	if res {
+		memo[f] = 1
+	} else {
+		memo[f] = 2
+	}
+	return res
+}
+
+// fitsAsDifference: the store is f = x.g - c with g a field that fits, stored
+// just before in the same block with a value known to be >= c.
+func (p *Prog) fitsAsDifference(st FieldStore, from, to types.Type) bool {
+	be, ok := ast.Unparen(st.Rhs).(*ast.BinaryExpr)
+	if !ok || be.Op != token.SUB {
+		return false
+	}
+	c, isC := p.constVal(be.Y)
+	if !isC || c < 0 {
+		return false
+	}
+	sel, ok := ast.Unparen(be.X).(*ast.SelectorExpr)
+	if !ok {
+		return false
+	}
+	s, ok := p.Info.Selections[sel]
+	if !ok || s.Kind() != types.FieldVal {
+		return false
+	}
+	g, _ := s.Obj().(*types.Var)
+	if g == nil || !p.fieldFitsInt(g.Origin(), from, to) {
+		return false
+	}
+	cf := p.CFG(st.Fn)
+	pt, okP := cf.PointOf(st.Node)
+	if !okP {
+		return false
+	}
+	// the last store to g before this one, in the same block
+	var prev ast.Expr
+	for i := 0; i < pt.I; i++ {
+		if as, ok := pt.B.Nodes[i].(*ast.AssignStmt); ok && len(as.Lhs) == 1 && len(as.Rhs) == 1 {
+			if ls, ok := ast.Unparen(as.Lhs[0]).(*ast.SelectorExpr); ok {
+				if s2, ok := p.Info.Selections[ls]; ok && s2.Obj() == s.Obj() && exprString(ls.X) == exprString(sel.X) {
+					prev = as.Rhs[0]
+				}
+			}
+		}
+	}
+	if prev == nil {
+		return false
+	}
+	if v, isC := p.constVal(prev); isC {
+		return v >= c
+	}
+	call, isCall := ast.Unparen(prev).(*ast.CallExpr)
+	if !isCall || !p.IsConversion(call) || len(call.Args) != 1 {
+		return false
+	}
+	e := p.Term(call.Args[0])
+	for _, ct := range cf.DominatingConds(pt) {
+		for _, a := range Conjuncts(ct) {
+			// c' < e  or  c' <= e
+			if (a.Op == "<" || a.Op == "<=") && len(a.Args) == 2 && a.Args[0].IsConst() && a.Args[1].Key() == e.Key() {
+				lo := a.Args[0].Int
+				if a.Op == "<" {
+					lo++
+				}
+				if lo >= c {
+					return true
+				}
+			}
+		}
+	}
+	return false
 }
